@@ -251,7 +251,7 @@ def start_bit_wide(mod, dem, entry):
                 ms = re.match(r"^store i32 (-?\d+), i32\* %s\b" % re.escape(cnt), back)
                 if ms:
                     return int(ms.group(1)), dem[callee]
-                if re.match(r"^store \S+ %\S+, i32\* %s\b" % re.escape(cnt), back):
+                if re.match(r"^store \S+ %%\S+, i32\* %s\b" % re.escape(cnt), back):
                     return None, dem[callee]
             return None, dem[callee]
     return None, dem[callee]
